@@ -136,6 +136,9 @@ def run(ctx: Ctx) -> None:
                              "buffer_attributes_blocked": {f"{k[0]}.{k[1]}": v for k, v in eng.state.items() if v}}
     ctx.floor(rule, 450)
     guard_placement(ctx, FUNC_MODULES + [m for m in CLASS_MODULES if m in ctx.prog.modules])
+    from .. import autograd_lint
+    autograd_lint.saved_inplace(ctx, FUNC_MODULES + [m for m in CLASS_MODULES if m in ctx.prog.modules])
+    autograd_lint.hook_receiver(ctx, [m for m in CLASS_MODULES if m in ctx.prog.modules])
 
 
 def mutants(prog):
